@@ -989,11 +989,16 @@ out:
 unsigned long plthook_entry(unsigned long *ret_addr, unsigned long child_idx,
 			    unsigned long module_id, struct mcount_regs *regs)
 {
-	int saved_errno = errno;
+	struct mcount_arch_context arch;
+	int saved_errno;
 	unsigned long ret;
 
+	/* see mcount_entry(): keep floating-point argument registers intact */
+	mcount_save_arch_context(&arch);
+	saved_errno = errno;
 	ret = __plthook_entry(ret_addr, child_idx, module_id, regs);
 	errno = saved_errno;
+	mcount_restore_arch_context(&arch);
 	return ret;
 }
 
@@ -1102,9 +1107,14 @@ again:
 
 unsigned long plthook_exit(long *retval)
 {
-	int saved_errno = errno;
-	unsigned long ret = __plthook_exit(retval);
+	struct mcount_arch_context arch;
+	int saved_errno;
+	unsigned long ret;
 
+	mcount_save_arch_context(&arch);
+	saved_errno = errno;
+	ret = __plthook_exit(retval);
 	errno = saved_errno;
+	mcount_restore_arch_context(&arch);
 	return ret;
 }
